@@ -167,6 +167,26 @@ def exporter_scenarios(rng, tier, comps=("none", "gz", "xz"), kinds=("file", "fd
     return scs
 
 
+def failed_rotation_scenarios(tier):
+    """Named outputs whose LAST step is a rotation that cannot succeed (the new name lies in a directory that does not
+    exist): the call reports it; the output published before it - and those before - stay what they were, whatever the
+    writer does next (destruction; every crash point)."""
+    scs = []
+    sid = 9500
+    chunks = [{"id": 1, "n": 5000, "pat": "text"}, {"id": 2, "n": 700, "pat": "rand", "seed": 3}, {"id": 3, "n": 40000, "pat": "rand", "seed": 8}]
+    for comp in ["none", "gz", "xz"]:
+        for sh in ([("w", 1)], [("w", 2), ("rot", 0), ("w", 3)], [("w", 1), ("w", 2), ("rot", 0)]):
+            sid += 1
+            steps = [{"op": "w", "c": a} if o == "w" else {"op": "rot"} for o, a in sh] + [{"op": "rotbad"}]
+            scs.append({"id": sid, "target": "writer", "comp": comp, "kind": "file", "chunks": chunks, "steps": steps, "pre": []})
+        for sh in ([("rec", 9), ("wb", 0)], [("rec", 30), ("rot", 0), ("rec", 5), ("wb", 0)]):
+            sid += 1
+            steps = [{"op": "rec", "n": a} if o == "rec" else {"op": "wb"} if o == "wb" else {"op": "rot", "export": True} for o, a in sh]
+            steps.append({"op": "rotbad", "export": True})
+            scs.append({"id": sid, "target": "exporter", "comp": comp, "kind": "file", "max": 4, "steps": steps, "pre": []})
+    return scs
+
+
 def pending_scenarios(tier, kinds=("file",)):
     """Compressed outputs closed while the compressor still holds back much data: incompressible outputs whose sizes run
     through the residues of the compressors' internal chunking (LZMA2 chunks of up to 64 KiB are held back whole), closed
